@@ -21,6 +21,10 @@ type Val struct {
 	// s[LK] until the variable is assigned, another element is stored, the
 	// slice is handed to a call or the key ages)
 	LK, LV *Term
+	// LocV/LocP: the variable holds &LocV.LocP... (the address of a field of
+	// a tracked local struct): reads and stores through it go to LocV
+	LocV *Var
+	LocP []string
 }
 
 type Label struct {
@@ -147,6 +151,14 @@ func (x *explorer) resolve(t *Term, st map[int]Val, depth int) *Term {
 	case "var":
 		if isVolatile(t.V) {
 			return opaque("vol")
+		}
+		if v, ok := st[t.V.ID]; ok && v.LocV != nil && depth < 40 {
+			// the address of a field of a tracked struct: its current value
+			f := x.resolve(varTerm(v.LocV), st, depth+1)
+			for _, p := range v.LocP {
+				f = x.simplify(&Term{Op: "field", Name: p, Args: []*Term{f}}, st, depth+1)
+			}
+			return mk("addr", "", f)
 		}
 		if v, ok := st[t.V.ID]; ok && v.T != nil {
 			return v.T
@@ -388,6 +400,9 @@ func (pg *PG) stateKey(n *Node, st map[int]Val, facts map[string]bool) string {
 		if v.LK != nil {
 			b.WriteString("@" + v.LK.Key() + ":" + v.LV.Key())
 		}
+		if v.LocV != nil {
+			b.WriteString("&" + strconv.Itoa(v.LocV.ID) + "." + strings.Join(v.LocP, "."))
+		}
 	}
 	if len(facts) > 0 {
 		var fk []string
@@ -430,6 +445,10 @@ func (pg *PG) intern(n *Node, st map[int]Val, facts map[string]bool) (*PState, b
 							held[a] = true
 							grew = true
 						}
+					}
+					if val.LocV != nil && !held[val.LocV.ID] {
+						held[val.LocV.ID] = true
+						grew = true
 					}
 				}
 				if !grew {
@@ -621,6 +640,24 @@ func (x *explorer) havoc(n *Node, st map[int]Val) {
 	}
 }
 
+// locate: the tracked local struct variable and field path that the field
+// chain f (rooted at a variable) designates: the variable itself when it is a
+// struct, the variable it points to when it holds that variable's address.
+func (x *explorer) locate(f *Term, st map[int]Val) (*Var, []string) {
+	root, path := splitPath(f)
+	if root.Op != "var" || len(path) == 0 || isVolatile(root.V) {
+		return nil, nil
+	}
+	cur, ok := st[root.V.ID]
+	switch {
+	case ok && cur.LocV != nil:
+		return cur.LocV, append(append([]string{}, cur.LocP...), path...)
+	case ok && cur.T != nil && cur.T.Op == "addrvar" && !isVolatile(cur.T.V):
+		return cur.T.V, path
+	}
+	return nil, nil
+}
+
 // forgetElems drops the remembered element store of every variable that holds
 // the collection t (the variable stored through and its aliases).
 func forgetElems(st map[int]Val, t *Term) {
@@ -630,7 +667,8 @@ func forgetElems(st map[int]Val, t *Term) {
 	k := t.Key()
 	for id, v := range st {
 		if v.LK != nil && v.T != nil && v.T.Key() == k {
-			st[id] = Val{T: v.T, N: v.N}
+			v.LK, v.LV = nil, nil
+			st[id] = v
 		}
 	}
 }
@@ -830,6 +868,16 @@ func (x *explorer) step(s *PState) []succ {
 				vals[i] = Val{T: r, N: termNilness(r)}
 			} else {
 				vals[i] = x.val(src, st)
+				if src.Op == "addr" && len(src.Args) == 1 {
+					if w, path := x.locate(src.Args[0], st); w != nil {
+						vals[i].LocV, vals[i].LocP = w, path
+					}
+				} else if src.Op == "var" {
+					// copying such a pointer copies the location
+					if sv, ok := st[src.V.ID]; ok && sv.LocV != nil {
+						vals[i].LocV, vals[i].LocP = sv.LocV, sv.LocP
+					}
+				}
 			}
 		}
 		x.havoc(n, st2)
@@ -855,6 +903,12 @@ func (x *explorer) step(s *PState) []succ {
 		if root.Op == "var" && len(path) > 0 && !isVolatile(root.V) {
 			cur, ok := st[root.V.ID]
 			switch {
+			case ok && cur.LocV != nil:
+				w := cur.LocV
+				wv := st[w.ID]
+				full := append(append([]string{}, cur.LocP...), path...)
+				st2[w.ID] = Val{T: setPath(wv.T, x.g.P.typeStr(w.Typ), full, v.T), N: -1}
+				done = true
 			case ok && cur.T != nil && cur.T.Op == "addrvar":
 				w := cur.T.V
 				wv := st[w.ID]
@@ -882,7 +936,9 @@ func (x *explorer) step(s *PState) []succ {
 				// element store into a local slice: remembered for reading back
 				k := x.resolve(n.Target.Args[1], st, 0)
 				forgetElems(st2, cur.T)
-				st2[mv.ID] = Val{T: cur.T, N: cur.N, LK: k, LV: v.T}
+				nv := cur
+				nv.LK, nv.LV = k, v.T
+				st2[mv.ID] = nv
 			}
 		} else if r, _ := splitPath(n.Target); r.Op == "index" {
 			// a store through any other path into an indexed collection
@@ -952,7 +1008,9 @@ func (x *explorer) step(s *PState) []succ {
 					}
 				}
 				if nt != v.T || lk != v.LK || lv != v.LV {
-					st2[id] = Val{T: nt, N: v.N, LK: lk, LV: lv}
+					nv := v
+					nv.T, nv.LK, nv.LV = nt, lk, lv
+					st2[id] = nv
 				}
 			}
 		}
